@@ -4,6 +4,7 @@ import (
 	"fmt"
 	"sort"
 	"testing"
+	"time"
 
 	"github.com/mark3labs/flyt"
 )
@@ -27,6 +28,10 @@ func judgeC06(sc *BatchSc, x *batchExec, br batchRun, fail string) Verdict {
 	if sc.NoPost {
 		return ok(false, "no-post")
 	}
+	cancelled := sc.Cancel != nil || sc.DeadlineMs > 0
+	if cancelled && x.postCalls == 0 && br.Err != nil {
+		return ok(false, "cancelled-no-post")
+	}
 	if x.postCalls != 1 {
 		return bad("C06:post-count", "post called %d times in one run (events %v)", x.postCalls, bevStrings(br.Events))
 	}
@@ -44,24 +49,40 @@ func judgeC06(sc *BatchSc, x *batchExec, br batchRun, fail string) Verdict {
 		return bad("C06:store", "post received a different store")
 	}
 	per := itemEvents(br.Events, n)
+	var postStart time.Duration
+	for _, e := range br.Events {
+		if e.Kind == "post" {
+			postStart = e.Start
+		}
+	}
 	for i := 0; i < n; i++ {
 		// items in the order prep produced them
 		if m := x.itemIs(items[i], i); m != "" {
 			return bad("C06:items-order", "post item %d: %s", i, m)
 		}
 		if len(per[i]) == 0 {
+			if sc.stop() || cancelled {
+				// skipped by stop-on-error / cancellation: no outcome exists; C09/C11 require an error here
+				if !results[i].IsError() {
+					return bad("C06:skipped-slot-not-error", "item %d was never processed, yet result %d is %s", i, i, describeResult(results[i]))
+				}
+				continue
+			}
 			return bad("C06:item-not-settled", "item %d was never processed before post (continue mode)", i)
 		}
 		for _, e := range per[i] {
-			if !e.Ended {
+			if !e.Ended || e.End > postStart {
 				return bad("C06:post-before-settled", "item %d still executing when post ran", i)
 			}
+		}
+		if cancelled && results[i].IsError() {
+			continue // an item whose retries were cut by the cancellation legitimately carries the context error
 		}
 		if m := slotMatches(results[i], per[i]); m != "" {
 			return bad("C06:slot", "result %d does not belong to item %d: %s", i, i, m)
 		}
 	}
-	if x.postStarted[0] != n {
+	if x.postStarted[0] != n && !sc.stop() && !cancelled {
 		return bad("C06:post-before-all-started", "post entered after only %d of %d items had been started", x.postStarted[0], n)
 	}
 	// Run's return value
@@ -103,11 +124,16 @@ func judgeC06(sc *BatchSc, x *batchExec, br batchRun, fail string) Verdict {
 	} else {
 		cls = append(cls, "ungated")
 	}
+	if sc.stop() {
+		cls = append(cls, "stop-mode")
+	}
+	if cancelled {
+		cls = append(cls, "cancelled")
+	}
 	return ok(sc.C >= 2 && outOfOrder, cls...)
 }
 
 func checkC06(t *testing.T, sc BatchSc) Verdict {
-	sc.Mode = modeContinue(sc.Mode)
 	x, br, fail := runBatchCase(t, &sc, nil)
 	return judgeC06(&sc, x, br, fail)
 }
@@ -179,12 +205,14 @@ func TestC06(t *testing.T) {
 		})
 		r.note("n=8,c=4: first %d schedules in DFS order (sampled, not exhaustive)", cnt)
 	}
-	g := batchGen{MinN: 0, MaxN: 64, MaxC: 16, Modes: []int{0, 1}, MaxBudget: 2, PFail: 250, PResErr: 80, PPreErr: 80, Fb: true, Gated: 1, PPrepErr: 20, PPostErr: 30, MaxSched: 80}
+	g := batchGen{MinN: 0, MaxN: 64, MaxC: 16, Modes: []int{0, 1, 1, 2}, MaxBudget: 2, PFail: 250, PResErr: 80, PPreErr: 80, Fb: true, Gated: 1, PPrepErr: 20, PPostErr: 30, MaxSched: 80}
 	rapidPart(r, "rand-gated", r.pick(2500, 40000), g.gen, checkC06)
 	g2 := g
 	g2.Gated = 0
 	g2.Waits = true
 	rapidPart(r, "rand-ungated", r.pick(1500, 25000), g2.gen, checkC06)
+	// the same guarantees while a cancellation strikes (scenarios of C11's generator)
+	rapidPart(r, "rand-cancelled", r.pick(1500, 25000), genC11, checkC06)
 }
 
 // c06Sharded enumerates the n=10,c=5 space: the first two release choices select the shard.
